@@ -90,9 +90,15 @@ func stubValidateV2Transaction(ms *consensus.MidState, txn types.V2Transaction) 
 		return errors.New("abstract: transaction invalid against the tip")
 	}
 	for i := range txn.SiacoinInputs {
-		// (core checks every input's Merkle proof against the state's accumulator)
-		if proofIsGarbage(&txn.SiacoinInputs[i].Parent.StateElement) {
+		// (core checks every input's Merkle proof against the state's accumulator:
+		// a proof that was moved by the wrong update, or that still refers to
+		// another state than the one validated against, does not verify)
+		se := &txn.SiacoinInputs[i].Parent.StateElement
+		if proofIsGarbage(se) {
 			return errors.New("abstract: siacoin input has an invalid Merkle proof (moved by the wrong update)")
+		}
+		if s.hasBase && len(se.MerkleProof) == 1 && se.MerkleProof[0][3] == 1 && se.LeafIndex != types.UnassignedLeafIndex && se.MerkleProof[0][0] != byte(s.base) {
+			return errors.New("abstract: siacoin input has a Merkle proof for another state")
 		}
 	}
 	for _, sci := range txn.SiacoinInputs {
